@@ -229,7 +229,8 @@ def name_battery(repo, seed=0, n=40):
     rnd = random.Random(seed)
     problems = []
     names = [b'plain', b'sp ace', b'per%cent', b'plus+plus', b'new\nline',
-             b'q?x#y', b'[br]=', b'caf\xc3\xa9', b'%41', b'\xe2\x82\xac', b'-dash']
+             b'q?x#y', b'[br]=', b'caf\xc3\xa9', b'%41', b'\xe2\x82\xac', b'-dash',
+             b'notes\n', b'draft ', b'tab\t', b' lead', b'cr\r', b'a+b', b'c++ notes']
     for _ in range(n):
         ln = rnd.randint(1, 12)
         bs = bytes(rnd.choice([c for c in range(1, 256) if c != 47])
